@@ -112,7 +112,13 @@ Uf2Valid(f) == /\ f.rest = 0
 
 -----------------------------------------------------------------------------
 (* ELF.  f = [ok, entry, secs (seq of [name, type, flags, addr, data]), syms (seq of [name, value, shndx])] *)
-ElfValid(f) == f.ok
+\* header sizes of the ELF specification: 52-byte header, 32-byte program headers and 40-byte section headers in the
+\* 32-bit class, 64 / 56 / 64 in the 64-bit class; the tables lie behind the header and inside the file
+ElfHeaderOk(h) == /\ h.cls \in {1, 2}
+                  /\ h.ehsize = (IF h.cls = 1 THEN 52 ELSE 64)
+                  /\ (h.shnum > 0 => h.shentsize = (IF h.cls = 1 THEN 40 ELSE 64) /\ h.shoff >= h.ehsize /\ h.shoff + h.shnum * h.shentsize <= h.size)
+                  /\ (h.phnum > 0 => h.phentsize = (IF h.cls = 1 THEN 32 ELSE 56) /\ h.phoff >= h.ehsize /\ h.phoff + h.phnum * h.phentsize <= h.size)
+ElfValid(f) == f.ok /\ ElfHeaderOk(f.hdr)
 ElfSym(f, n) == {f.syms[i].value : i \in {j \in 1..Len(f.syms) : f.syms[j].name = n}}
 
 -----------------------------------------------------------------------------
